@@ -114,6 +114,22 @@ def child(case):
     vloop.Gate.enabled = False
     rng = random.Random(case['seed'])
     w = World(seed=case['seed'] * 3 + 1)
+    if case.get('shared_prefix_scripts', True):
+        # two (or three) scripts whose script hashes share their first two bytes - the unit the compaction cursor advances by -
+        # used as often as the hot scripts, so that one 2-byte prefix holds several script hashes with many rows
+        from exv.chainsim import hashx
+        byp = {}
+        extra = None
+        for i in range(1, 4000):
+            sc = b'\x76\xa9\x14' + (case['seed'] % 65536 * 4000 + i).to_bytes(20, 'big') + b'\x88\xac'
+            byp.setdefault(hashx(sc)[:2], []).append(sc)
+            if len(byp[hashx(sc)[:2]]) >= 2:
+                extra = byp[hashx(sc)[:2]]
+                break
+        if extra:
+            w.scripts = list(w.scripts) + extra
+            w.hot = list(w.hot) + extra
+            c['script_hashes_sharing_a_two_byte_prefix'] = len(extra)
     grow_chain(w, case['n0'] + 1, rng)
     dbdir = scratch_dir('exv-c14-')
     rows = case['row_entries']
@@ -343,7 +359,7 @@ def run(tier, seed, replay=None):
     c = rep.counters
     for name, minimum in {'history_sets_compared': 80, 'follow_ups_run': 50, 'mode:complete': 5, 'mode:resume': 10, 'mode:abandon': 10,
                           'mode:kill': 5, 'mode:kill-before-set-flush-count': 5, 'compaction_process_exit_77': 5,
-                          'compaction_process_exit_78': 5, 'max_rows_per_script_before': 8}.items():
+                          'compaction_process_exit_78': 5, 'max_rows_per_script_before': 8, 'script_hashes_sharing_a_two_byte_prefix': 50}.items():
         rep.floor(name, c[name], minimum)
     rep.exhaustive = tier == 'thorough'
     return rep.finish(
